@@ -301,8 +301,8 @@ pub fn run(ctx: Ctx) -> Report {
         // truncation prefixes of the new certificate and key (a writer caught mid-write)
         let clen = pairs[1].cert_pem.len();
         let klen = pairs[1].key_pem.len();
-        let mut cert_cuts: Vec<usize> = if quick { (0..64).map(|i| i * clen / 64).collect() } else { (0..=clen).collect() };
-        let mut key_cuts: Vec<usize> = if quick { (0..32).map(|i| i * klen / 32).collect() } else { (0..=klen).collect() };
+        let mut cert_cuts: Vec<usize> = if quick { (0..clen).step_by(4).collect() } else { (0..=clen).collect() };
+        let mut key_cuts: Vec<usize> = if quick { (0..klen).step_by(3).collect() } else { (0..=klen).collect() };
         for (i, ch) in pairs[1].cert_pem.char_indices() {
             if ch == '\n' {
                 cert_cuts.extend([i, i + 1]);
@@ -340,7 +340,7 @@ pub fn run(ctx: Ctx) -> Report {
         }
         // random sequences of 20-200 steps
         let mut rng = Rng::new(seed ^ 0xC18);
-        for _ in 0..if quick { 30 } else { 600 } {
+        for _ in 0..if quick { 120 } else { 2000 } {
             let n = rng.usize(20, if quick { 60 } else { 200 });
             let mut s = Vec::new();
             for _ in 0..n {
